@@ -15,17 +15,20 @@ open PolyVerif PolyVerif.LineText PolyVerif.Gff PolyVerif.Spec.GffLayout
 
 /-! ### C14, first clause: write then read -/
 
-/-- **Parse (Build x) = expected x**, for every record that satisfies `wfBuild` — any sequence
-length (hence every residue modulo 70 and every position of `RegionEnd` relative to the line
-breaks), any number of features and attributes, the attribute map in any iteration order. -/
-theorem parse_build (x : Gff) (h : wfBuild x = true) : parse (build x) = .ok (expected x) := by
+/-- **Parse (Build x) = expected x** with ANY line-break rule in Build's FASTA loop, for every record
+that satisfies `wfBuild` — any sequence length, any number of features and attributes, the
+attribute map in any iteration order.  (The correspondence check compares the real Build's text
+with the model's up to the position of the newlines inside the sequence; this theorem is what
+makes that comparison sufficient.) -/
+theorem parse_buildWith (brk : Nat → Bool) (x : Gff) (h : wfBuild x = true) :
+    parse (buildWith brk x) = .ok (expected x) := by
   simp only [wfBuild, Bool.and_eq_true, List.all_eq_true] at h
   obtain ⟨⟨⟨⟨⟨⟨h1, h2⟩, h3⟩, h4⟩, h5⟩, h6⟩, h7⟩ := h
-  have htail := fasta_tail x.regionEnd x.seq h6
-  have hlines : split '\n' (build x) = versionLine x :: regionLine x ::
+  have htail := fasta_tail brk x.seq h6
+  have hlines : split '\n' (buildWith brk x) = versionLine x :: regionLine x ::
       ((x.features.map (buildFeature x.locusName) ++ [sClose]) ++ sFasta :: ('>' :: x.name) ::
-        split '\n' (wrapSeq x.regionEnd 0 x.seq ++ ['\n'])) := by
-    unfold build
+        split '\n' (wrapWith brk 0 x.seq ++ ['\n'])) := by
+    unfold buildWith
     rw [List.append_assoc, split_unlines]
     · simp [headLines, List.append_assoc]
     · intro l hl
@@ -56,6 +59,12 @@ theorem parse_build (x : Gff) (h : wfBuild x = true) : parse (build x) = .ok (ex
     (versionLine_facts x).1 (versionLine_facts x).2 (regionLine_facts x).1 (regionLine_facts x).2 hmid htail.1]
   rw [htail.2, atoi_regionStartText x h4, atoi_regionEndText x h5]
   rfl
+
+/-- **Parse (Build x) = expected x** for Build as it is: a line break after every 70th letter except
+at position `RegionEnd` — hence for every residue of the length modulo 70 and every position of
+`RegionEnd` relative to the line breaks. -/
+theorem parse_build (x : Gff) (h : wfBuild x = true) : parse (build x) = .ok (expected x) :=
+  parse_buildWith (buildBreak x.regionEnd) x h
 
 /-- a record all of whose printed fields are set -/
 def allSet (x : Gff) : Bool :=
@@ -228,6 +237,21 @@ example : wfBuild sample = true := by decide
 example : parse (build sample) = .ok (expected sample) := by decide
 example : getSeq sample.seq (expectedFeature [] (sample.features.getD 1 {})) = .ok ['C'] := by decide
 example : bases sample.seq 71 71 = ['C'] := by decide
+
+/-- The last lines of `Build`'s text for a 140-letter sequence (a multiple of the line width), as
+line lengths after the FASTA definition line; the final `0` is the empty field after the last
+newline.  `RegionEnd = 140 = len`: the break after letter 140 is suppressed, no blank line.
+`RegionEnd = 1` (any value that is no multiple of 70 up to the length): breaks after 70 and 140, then
+the final newline leaves a blank line.  `RegionEnd = 70` (a smaller multiple): the break after
+letter 70 is suppressed — one 140-letter line — and the text ends with a blank line.  `Parse` skips
+blank lines and joins the others, so all three read back the same sequence (`parse_buildWith`). -/
+def tailShape (regionEnd : Int) : List Nat :=
+  ((split '\n' (build { name := ['s'], regionStart := 1, regionEnd := regionEnd, seq := List.replicate 140 'A' })).drop 5).map
+    List.length
+
+example : tailShape 140 = [70, 70, 0] := by decide +kernel
+example : tailShape 1 = [70, 70, 0, 0] := by decide +kernel
+example : tailShape 70 = [140, 0, 0] := by decide +kernel
 
 def sampleDoc : GffDoc :=
   { version := "3.1.26".toList, region := "ctg123".toList, regionFirst := 1, regionLast := 9,
